@@ -40,6 +40,10 @@ def logl_value(kind, x):
         return float(np.logaddexp(ridge, peak))
     if kind == 'corner':       # a peak in a corner of the cube
         return float(-0.5 * np.sum((x / 0.06) ** 2))
+    if kind == 'corners4':     # four separated modes near the corners: the first bound empties the unit-cube shell
+        c = np.array([0.1, 0.9])
+        terms = [-0.5 * np.sum((x[:2] - np.array([a, b])) ** 2) / 0.06 ** 2 for a in c for b in c]
+        return float(np.logaddexp.reduce(terms) - 0.5 * np.sum(((x[2:] - 0.5) / 0.2) ** 2))
     raise ValueError(kind)
 
 
